@@ -1152,3 +1152,59 @@ func reachedOnlyAfterSuccess(step ssa.CallInstruction, site ssa.Instruction) boo
 	}
 	return false
 }
+
+// comparesMsgType reports whether fn compares one of its ClientMessage parameters with a constant (the dispatch switch).
+func comparesMsgType(fn *ssa.Function) bool {
+	for _, p := range fn.Params {
+		if !core.IsNamed(p.Type(), pkTypes, "ClientMessage") {
+			continue
+		}
+		for _, r := range core.Referrers(p) {
+			if b, ok := r.(*ssa.BinOp); ok && (b.Op == token.EQL || b.Op == token.NEQ) {
+				if _, isC := core.ConstInt(b.X); isC {
+					return true
+				}
+				if _, isC := core.ConstInt(b.Y); isC {
+					return true
+				}
+			}
+		}
+	}
+	return false
+}
+
+// dispatcher returns the function that holds the switch on the client message type: handleCommand itself, or -
+// when handleCommand only prepares the command (context, bookkeeping) and hands its message type parameter on -
+// the single in-scope function it passes that parameter to which compares it with the message constants. The
+// second result lists the forwarding calls from handleCommand down to the dispatcher (empty when they coincide).
+func (c *Ctx) dispatcher() (*ssa.Function, []ssa.CallInstruction) {
+	hc := c.P.Method("wire", "Session", "handleCommand")
+	var chain []ssa.CallInstruction
+	for depth := 0; hc != nil && depth < 3 && !comparesMsgType(hc); depth++ {
+		var next *ssa.Function
+		var via ssa.CallInstruction
+		n := 0
+		for _, ci := range core.Calls(hc) {
+			callee := core.StaticCallee(ci)
+			if callee == nil || !c.P.InPkg(callee, "wire") || callee.Blocks == nil {
+				continue
+			}
+			passes := false
+			for _, a := range ci.Common().Args {
+				if p, ok := core.Strip(a).(*ssa.Parameter); ok && p.Parent() == hc && core.IsNamed(p.Type(), pkTypes, "ClientMessage") {
+					passes = true
+				}
+			}
+			if passes {
+				n++
+				next, via = callee, ci
+			}
+		}
+		if n != 1 {
+			break
+		}
+		hc = next
+		chain = append(chain, via)
+	}
+	return hc, chain
+}
